@@ -250,9 +250,11 @@ def variants(draw):
     date_col = draw(st.integers(1, c - 1)) if c >= 3 and not wrapped and draw(st.integers(0, 4)) == 0 else None
     if date_col == word_col:
         date_col = None
+    all_toks = []
     for i in range(r):
         toks = [draw(tok) for _ in range(c)]
         toks[0] = str(i + 1)
+        all_toks.append(toks)
         if word_col is not None:
             toks[word_col] = draw(st.sampled_from(["abc", "LIME", "x1", "N/A", "sand"]))
         if date_col is not None:
@@ -268,6 +270,17 @@ def variants(draw):
                 k += n
         else:
             rows.append(mkrow(draw, toks, sep_char, rich_rows))
+    if wrapped and r >= 2 and draw(st.integers(0, 3)) == 0:
+        # re-wrap the whole token stream, line ends at ANY token boundary (also inside and across depth steps);
+        # constant line widths (what the column sniffer looks at) are favoured: 2c, c+1, a divisor of r*c, ...
+        stream = [t for i in range(r) for t in all_toks[i]]
+        n = len(stream)
+        width = draw(st.one_of(st.sampled_from([2 * c, c + 1, n, max(1, c - 1), 3 * c]), st.integers(1, n)))
+        rows, k = [], 0
+        while k < n:
+            w = width if draw(st.integers(0, 5)) else draw(st.integers(1, n))
+            rows.append(mkrow(draw, stream[k:k + w], sep_char, rich_rows))
+            k += w
     asec = lastext.section("A", draw(st.sampled_from(["~A", "~ASCII", "~A  DEPT GR"])), rows, ncols=c)
     secs.append(asec)
     if draw(st.integers(0, 3)) == 0 and len(secs) > 4:
